@@ -47,6 +47,11 @@ func (e *Engine) verifyFunc(f *ssa.Function, ct *Contract) *FnVC {
 		if i == 0 && f.Signature.Recv() != nil && v.K == KLoc {
 			fv.assume("true", not(eq(v.T, "LNil")))
 		}
+		if v.K == KIface && canonType(p.Type()) == modPath+".Object" {
+			// type invariant of script values: an Object handed to an operation is never Go nil
+			fv.assume("true", not(eq("(itag "+v.T+")", "0")))
+			fv.note("assumed: parameters of type Object are non-nil (the VM turns Go nil into undefined before values reach operations)")
+		}
 	}
 	for _, b := range f.FreeVars {
 		v := fv.unknown(st, b.Type(), "fv_"+sanitize(b.Name()))
@@ -126,7 +131,9 @@ func (fv *FnVC) finishReturn(in *inst, r retInfo, suffix string) {
 	if !pos.IsValid() {
 		pos = f.Pos()
 	}
+	in.at = r.node.blk
 	ce := in.baseEnv(st)
+	in.at = nil
 	for i, nm := range resultNames(sig) {
 		ce.vars[nm] = vs[i]
 	}
